@@ -23,6 +23,7 @@ type part struct {
 	Scen   string
 	Depths map[string][]int         // tier -> successive deviation bounds
 	Budget map[string]time.Duration // tier -> wall budget for this part
+	Inst   map[string]string        // tier -> instance set name passed to the scenario (default: the tier)
 	Test   string                   // enum: test function in the worker binary
 	Env    []string
 }
@@ -37,17 +38,17 @@ type check struct {
 
 // enumResult is what an enumeration test prints (one JSON line prefixed ENUM).
 type enumResult struct {
-	Evaluations int              `json:"evaluations"`
-	Distinct    int              `json:"distinct_nontrivial"`
-	Exhaustive  bool             `json:"exhaustive"`
-	States      int              `json:"states,omitempty"`
-	Transitions int              `json:"transitions,omitempty"`
-	Validated   int              `json:"traces_validated_against_impl,omitempty"`
-	Samples     []any            `json:"samples"`
-	Outcomes    map[string]int   `json:"outcomes,omitempty"`
-	Violations  []enumViolation  `json:"violations"`
-	Notes       []string         `json:"notes,omitempty"`
-	Extra       map[string]any   `json:"extra,omitempty"`
+	Evaluations int             `json:"evaluations"`
+	Distinct    int             `json:"distinct_nontrivial"`
+	Exhaustive  bool            `json:"exhaustive"`
+	States      int             `json:"states,omitempty"`
+	Transitions int             `json:"transitions,omitempty"`
+	Validated   int             `json:"traces_validated_against_impl,omitempty"`
+	Samples     []any           `json:"samples"`
+	Outcomes    map[string]int  `json:"outcomes,omitempty"`
+	Violations  []enumViolation `json:"violations"`
+	Notes       []string        `json:"notes,omitempty"`
+	Extra       map[string]any  `json:"extra,omitempty"`
 }
 
 type enumViolation struct {
@@ -67,23 +68,23 @@ type violation struct {
 }
 
 type partReport struct {
-	Name        string         `json:"part"`
-	Kind        string         `json:"kind"`
-	Scenario    string         `json:"scenario,omitempty"`
-	Instances   int            `json:"instances,omitempty"`
-	Evaluations int            `json:"evaluations"`
-	Transitions int            `json:"transitions,omitempty"`
-	States      int            `json:"states,omitempty"`
-	Redundant   int            `json:"redundant_aborted,omitempty"`
-	Diverged    int            `json:"replay_divergences,omitempty"`
-	Contended   int            `json:"contended_executions,omitempty"`
-	Outcomes    int            `json:"distinct_outcomes,omitempty"`
-	BoundDone   int            `json:"deviation_bound_completed"`
-	BoundPartial int           `json:"deviation_bound_partial,omitempty"`
-	Exhaustive  bool           `json:"exhaustive"`
-	WallS       float64        `json:"wall_s"`
-	Extra       map[string]any `json:"extra,omitempty"`
-	Notes       []string       `json:"notes,omitempty"`
+	Name         string         `json:"part"`
+	Kind         string         `json:"kind"`
+	Scenario     string         `json:"scenario,omitempty"`
+	Instances    int            `json:"instances,omitempty"`
+	Evaluations  int            `json:"evaluations"`
+	Transitions  int            `json:"transitions,omitempty"`
+	States       int            `json:"states,omitempty"`
+	Redundant    int            `json:"redundant_aborted,omitempty"`
+	Diverged     int            `json:"replay_divergences,omitempty"`
+	Contended    int            `json:"contended_executions,omitempty"`
+	Outcomes     int            `json:"distinct_outcomes,omitempty"`
+	BoundDone    int            `json:"deviation_bound_completed"`
+	BoundPartial int            `json:"deviation_bound_partial,omitempty"`
+	Exhaustive   bool           `json:"exhaustive"`
+	WallS        float64        `json:"wall_s"`
+	Extra        map[string]any `json:"extra,omitempty"`
+	Notes        []string       `json:"notes,omitempty"`
 }
 
 func seed() int {
@@ -267,7 +268,11 @@ func normalize(s string) string {
 func runExplore(b *built, prop string, p part, tier string) (partReport, []violation, []any, error) {
 	rep := partReport{Name: p.Name, Kind: "explore", Scenario: p.Scen, BoundDone: -1}
 	t0 := time.Now()
-	inst, err := instances(b, p.Scen, tier)
+	it := tier
+	if v, ok := p.Inst[tier]; ok {
+		it = v
+	}
+	inst, err := instances(b, p.Scen, it)
 	if err != nil {
 		return rep, nil, nil, fmt.Errorf("instances of %s: %v", p.Scen, err)
 	}
@@ -287,7 +292,8 @@ func runExplore(b *built, prop string, p part, tier string) (partReport, []viola
 		pl := newPool(b, a)
 		pl.deadline = deadline
 		many := len(inst) >= 32
-		pl.expandIf = func(depth int) bool { return depth >= 3 || (depth >= 2 && !many) }
+		_ = many
+		pl.expandIf = func(depth int) bool { return depth >= 2 }
 		for _, ps := range inst {
 			pl.push(&explore.Task{Scen: p.Scen, Params: ps, Depth: d, Expand: pl.expandIf(d)})
 		}
